@@ -175,11 +175,38 @@ def check_apply_case(sel):
     return out, {"accepted": int(bool(got)), "rejected": int(got is False)}
 
 
+def check_unknown_case(sel):
+    """unknown identifiers are rejected by the order functions, too"""
+    from nanite import preproc
+    out = []
+    sel = list(sel)
+    case = {"kind": "unknown", "sel": sel}
+    for fname in ("autosort", "check_order"):
+        try:
+            ret = getattr(preproc, fname)(list(sel))
+            out.append(V(PROP, "unknown-accepted", site=fname,
+                         witness=",".join(sel), detail=f"{fname} returned "
+                         f"{ret!r} for a list with an unknown identifier",
+                         case=case, kind="unknown"))
+        except KeyError:
+            pass
+        except ValueError:
+            # a known step of the list misses a requirement: also a rejection
+            pass
+        except BaseException as e:
+            out.append(V(PROP, "unknown-wrong-error", site=fname,
+                         witness=",".join(sel), detail=repr(e), case=case,
+                         kind="unknown"))
+    return out, {"rejected": int(not out)}
+
+
 def _work(chunk):
     res = []
     for kind, sel in chunk:
         state.restore("nanite.preproc")     # every case starts pristine
-        if kind == "sort":
+        if kind == "unknown":
+            res.append((kind, sel) + check_unknown_case(sel))
+        elif kind == "sort":
             res.append((kind, sel) + check_sort_case(sel))
         else:
             res.append((kind, sel) + check_apply_case(sel))
@@ -279,6 +306,8 @@ def replay(doc):
         return check_sort_case(case["sel"])[0]
     if case["kind"] == "sort":
         return check_sort_case(case["sel"])[0]
+    if case["kind"] == "unknown":
+        return check_unknown_case(case["sel"])[0]
     return check_apply_case(case["sel"])[0]
 
 
@@ -299,6 +328,7 @@ def run(tier):
             for pos in range(len(s) + 1):
                 unk.append(s[:pos] + ["no_such_step"] + s[pos:])
     work += [("apply", s) for s in unk]
+    work += [("unknown", s) for s in unk]
     rep.set("lists_with_unknown_identifier", len(unk))
     # the available() list itself
     av = list(preproc.available())
